@@ -93,10 +93,14 @@ func renderNode(sb *strings.Builder, fset *token.FileSet, n ast.Node, d *duality
 	switch x := n.(type) {
 	case nil:
 	case *ast.Ident:
+		name := x.Name
+		if a, ok := astIdentAlias[name]; ok {
+			name = a // a renamed unexported field / type: use the pinned identifier (see layout.go)
+		}
 		if d != nil {
-			sb.WriteString(d.ident(x.Name))
+			sb.WriteString(d.ident(name))
 		} else {
-			sb.WriteString(x.Name)
+			sb.WriteString(name)
 		}
 	case *ast.BasicLit:
 		sb.WriteString(x.Value)
@@ -300,8 +304,26 @@ func multisetDiff(a, b []string) (onlyA, onlyB []string) {
 	return
 }
 
+// astIdentAlias: identifier translation applied while rendering source (set per package by useAstAliases).
+var astIdentAlias map[string]string
+
+func useAstAliases(c *Ctx, fnKey string) {
+	astIdentAlias = nil
+	if curLayout == nil {
+		return
+	}
+	best := ""
+	for rel := range c.Pkgs {
+		if strings.HasPrefix(fnKey, rel+".") && len(rel) > len(best) {
+			best = rel
+		}
+	}
+	astIdentAlias = curLayout.idents[best]
+}
+
 // mirrorPair checks that dual(B) == A as multisets of atoms.
 func mirrorPair(c *Ctx, r *R, key, a, b string, d *duality) {
+	useAstAliases(c, a)
 	fa, fb := c.decl(a), c.decl(b)
 	if fa == nil || fb == nil {
 		r.undecided(key, token.NoPos, "function not found: "+a+" / "+b)
@@ -320,6 +342,7 @@ func mirrorPair(c *Ctx, r *R, key, a, b string, d *duality) {
 
 // selfDual checks dual(A) == A.
 func selfDual(c *Ctx, r *R, key, a string, d *duality) {
+	useAstAliases(c, a)
 	fa := c.decl(a)
 	if fa == nil {
 		r.undecided(key, token.NoPos, "function not found: "+a)
